@@ -553,15 +553,20 @@ func c04Static(c *lib.Ctx, bs []c04Builtin, verdicts map[int]*c04Verdict) {
 		fmt.Fprintln(os.Stderr, "cannot read Gen/Builtins.lean:", err)
 		os.Exit(2)
 	}
-	byName := map[string][]int{}
+	byFn := map[string][]int{}
 	for i, b := range bs {
-		byName[b.name] = append(byName[b.name], i)
+		byFn[b.name] = append(byFn[b.name], i)
+	}
+	// static entry names are "<go package dir>:<function name>"
+	byName := func(entry string) []int {
+		_, fn, _ := strings.Cut(entry, ":")
+		return byFn[fn]
 	}
 	// cross-check: the statically extracted documentation is the run-time documentation
 	docMismatch := []string{}
 	for _, e := range entries {
 		found, same := false, false
-		for _, i := range byName[e.name] {
+		for _, i := range byName(e.name) {
 			found = true
 			if strings.Join(bs[i].doc, " ") == strings.ToLower(strings.Join(e.doc, " ")) {
 				same = true
@@ -615,7 +620,7 @@ func c04Static(c *lib.Ctx, bs []c04Builtin, verdicts map[int]*c04Verdict) {
 		unexcused++
 		// not a listed finding: is there a dynamic witness (reported above with its call form)?
 		witness := false
-		for _, bi := range byName[e.name] {
+		for _, bi := range byName(e.name) {
 			if v := verdicts[bi]; v != nil && c.Findings.Match("C04", v.signature(bs[bi])) == nil {
 				witness = true
 			}
@@ -673,4 +678,33 @@ func c04ReplayBuiltin(c *lib.Ctx, rec map[string]any) {
 		return
 	}
 	fmt.Printf("replay: built-in %s:%s not found\n", pkg, name)
+}
+
+// c04ReplayStatic re-derives one entry of the regenerated table against the model.
+func c04ReplayStatic(c *lib.Ctx, rec map[string]any) {
+	name, _ := rec["name"].(string)
+	entries, exceptions, err := c04ReadGen(c)
+	if err != nil {
+		fmt.Println("cannot read Gen/Builtins.lean:", err)
+		return
+	}
+	for _, e := range entries {
+		if e.name != name {
+			continue
+		}
+		rep := c.Model([]string{c04DocRequest(e.doc)})[0]
+		w := strings.Fields(rep)
+		ok := false
+		if len(w) == 4 && w[0] == "ok" {
+			mn, _ := strconv.Atoi(w[1])
+			ok = mn == e.min && (c04ParseMax(w[2]) == e.max || c04ParseMax(w[3]) == e.max)
+		}
+		fmt.Printf("replay %s (%s)\n  observed: CheckArgCount literal min=%d max=%d (-1 = unbounded)\n  expected: bounds of the documented lambda list (%s): model ll.doc says %s (min, max, max without duplicate keys)\n  consistent: %v, named by a known finding: %v\n",
+			e.name, e.where, e.min, e.max, strings.Join(e.doc, " "), rep, ok, exceptions[e.name])
+		if !ok && !exceptions[e.name] {
+			c.Report("replay", false, map[string]any{"input": e.where})
+		}
+		return
+	}
+	fmt.Printf("replay: %s is not in the regenerated table any more\n", name)
 }
